@@ -40,6 +40,8 @@ def build(S):
         def rnd_sample(ctx, args, kwargs):
             pop = args[0]
             k = kwargs.get('k', args[1] if len(args) > 1 else None)
+            if type(pop).__name__ == 'LazyIter':
+                pop = models_py.list_of_lazy(ctx, pop)
             if not isinstance(pop, SymSeq) or k is None:
                 raise OutOfSubset("random.sample in an unmodelled form")
             kz = to_z3(k)
